@@ -3,6 +3,7 @@ pub mod project;
 pub mod world;
 pub mod rec;
 pub mod hist;
+pub mod fndrv;
 pub mod slots {
     include!(concat!(env!("OUT_DIR"), "/slots.rs"));
     pub fn of(name: &str) -> &'static [&'static str] {
